@@ -1262,6 +1262,16 @@ func (c *Ctx) interpCall(callee *ssa.Function, call *ssa.Call, caller *frame) *i
 			env.subst[fmt.Sprintf("%s%d", pre, i)] = caller.sym(args[i])
 		}
 	}
+	// a helper that is handed the caller's options struct (by value or by pointer) sees the caller's option context
+	for i, p := range callee.Params {
+		if i < len(args) && caller.isOptsValue(args[i]) && !callee.Signature.Variadic() {
+			if env.optsParams == nil {
+				env.optsParams = map[*ssa.Parameter]bool{}
+			}
+			env.optsParams[p] = true
+			env.opts, env.optsKnown, env.getter = caller.env.opts, caller.env.optsKnown, caller.getter
+		}
+	}
 	// options given literally at the call site
 	S := c.opts()
 	if callee.Signature.Variadic() && len(args) > 0 {
